@@ -86,12 +86,24 @@ fn render(sc: &Value, b: usize, part: &str, t: usize) -> (Vec<f32>, bool) {
 	for (i, tr) in [&mut a, &mut bt].into_iter().enumerate() {
 		let mut st = StaticSoundSettings::new()
 			.playback_rate(PlaybackRate(sc["rates"][i].as_u64().unwrap() as f64 / 256.0))
-			.panning(Panning(sc["pans"][i].as_i64().unwrap() as f32 / 4.0))
+			// (quarters; 2 and 3 stand for pannings that are not round in binary)
+			.panning(Panning(match sc["pans"][i].as_i64().unwrap() {
+				2 => 0.3,
+				3 => -0.7,
+				p => p as f32 / 4.0,
+			}))
 			.volume(Decibels(-4.0));
 		if sc["loops"][i].as_bool().unwrap() {
 			st = st.loop_region(..);
 		}
-		let h = tr.play(StaticSoundData { sample_rate: SR, frames: noise(150 + 77 * i, 7 + i as u32), settings: st, slice: None }).unwrap();
+		let mut frames: Vec<Frame> = noise(150 + 77 * i, 7 + i as u32).to_vec();
+		if sc["gaps"][i].as_bool().unwrap_or(false) {
+			// a stretch of exact silence inside the sound (burst, silence, burst)
+			for f in frames.iter_mut().skip(40).take(70) {
+				*f = Frame::ZERO;
+			}
+		}
+		let h = tr.play(StaticSoundData { sample_rate: SR, frames: frames.into(), settings: st, slice: None }).unwrap();
 		std::mem::forget(h);
 	}
 	let mut out = vec![];
